@@ -39,7 +39,7 @@ Proof. apply plist_spelled. Qed.
 Lemma class_by_kind t : kind_class (t_kind t) <> CConst CkInt -> tok_class t = kind_class (t_kind t).
 Proof. unfold tok_class. destruct (kind_class (t_kind t)) as [| |k| | | | | | | | | | | |o| | |k| | | |dk| |]; try reflexivity. destruct k; try reflexivity. intro H. contradiction H. reflexivity. Qed.
 
-Lemma class_fb t : t_kind t = KFunctionBlock -> tok_class t = COther.
+Lemma class_fb t : t_kind t = KFunctionBlock -> tok_class t = CKw KwEndPou.
 Proof. intro H. rewrite class_by_kind; rewrite H; [reflexivity | discriminate]. Qed.
 Lemma class_id t : t_kind t = KIdentifier -> tok_class t = CId.
 Proof. intro H. rewrite class_by_kind; rewrite H; [reflexivity | discriminate]. Qed.
